@@ -77,6 +77,14 @@ class C08(DevProp):
             dz = rng.choice([0.0, 0.0, 0.1])
             cfg = agen.base_cfg([an, other], defdz=[{"sub": "", "bits": str(bits(dz))}], actions=[{"code": c, "action": n_} for n_, c in ACT.items()],
                                 channel=rng.randint(1, 16), octave=rng.choice([0, 0, 1, -1, 5, 10, -10, 11, -11, 12, -12, 17]), semitone=rng.choice([0, 0, 3, 9, -9]))
+            if ci % 8 in (3, 7):
+                # the lowest pair the tracker can hold: note 0 on the first channel (index 0) - a zero value that must not be mistaken for
+                # "nothing tracked"; reached directly or through transposition
+                base = rng.choice([0, 12, 24])
+                an["note"], an["off"] = base, 0
+                if with_neg:
+                    an["noteneg"], an["offneg"] = base, 0
+                cfg["channel"], cfg["octave"], cfg["semitone"] = 1, -(base // 12), 0
             zr = zone_raws(mn, mx)
             script = list(allpairs)
             rng.shuffle(script)
